@@ -94,3 +94,39 @@ def s_xns(tier='quick'):
     sch_a = Schema(NS1, [person], prefixes={'t': NS1, 'm': NS2}, imports=[(NS2, 'b.xsd')])
     sc = Scenario('S-xns', {'a.xsd': sch_a, 'b.xsd': sch_b}, 'a.xsd', [mn, mx])
     return sc, Info(schemas={'a.xsd': sch_a, 'b.xsd': sch_b}, subjects=[('a.xsd', person), ('b.xsd', other)], simple=[])
+
+
+# ------------------------------------------------------------------------------------------------ C11: import graphs
+
+def import_graph(nfiles=3, slots=2, with_missing=False, with_wellknown=False):
+    """files f0..f(n-1); every file has `slots` import slots whose target is symbolic over {none, f0.., [missing], [well-known ns]};
+    the start file is symbolic too: one exploration covers every import multigraph of that size"""
+    names = ['f%d.xsd' % i for i in range(nfiles)]
+    opts = [ABSENT] + names + (['missing.xsd'] if with_missing else [])
+    sels = []
+    files = {}
+    schemas = {}
+    edges = {}
+    for i, fn in enumerate(names):
+        imps = []
+        edges[i] = []
+        for k in range(slots):
+            loc = Selector('imp_%d_%d' % (i, k), opts)
+            sels.append(loc)
+            edges[i].append(loc)
+            ns = 'urn:imported'
+            if with_wellknown:
+                nss = Selector('impns_%d_%d' % (i, k), ['urn:imported', 'http://www.w3.org/2001/XMLSchema'])
+                sels.append(nss)
+                ns = nss
+            imps.append((ns, loc))
+        ct = CT('T%d' % i, Seq([El('x%d' % i, 'xs:string')]))
+        sch = Schema('urn:f%d' % i, [ct], prefixes={'t': 'urn:f%d' % i})
+        sch.imports = imps
+        schemas[fn] = sch
+        files[fn] = sch
+    start = Selector('start', names)
+    sels.append(start)
+    sc = Scenario('imports-%d-%d%s%s' % (nfiles, slots, '-missing' if with_missing else '', '-wk' if with_wellknown else ''),
+                  files, start, sels)
+    return sc, Info(schemas=schemas, names=names, edges=edges, start=start, opts=opts, nfiles=nfiles, slots=slots)
